@@ -12,7 +12,7 @@ D = decimal.Decimal
 T_NUM = 'spyne.model.primitive.number'
 
 
-def schematic_number(c, T, with_values=True):
+def schematic_number(c, T, with_values=True, bounds=(None, None)):
     """A customisation of T whose facets are symbolic: returns (cls, facets dict).
 
     Symbolic mode plants symbolic facet values in a fresh real subclass (so that method resolution,
@@ -26,6 +26,19 @@ def schematic_number(c, T, with_values=True):
             f[k] = c.int(k)
         else:
             f[k] = None
+    # precondition of the declaration itself: a fixed-width type refuses (ValueError at customisation time) a bound that
+    # excludes its whole value space, so such types do not exist
+    lo, hi = bounds
+    if lo is not None:
+        if f['le'] is not None:
+            c.assume(f['le'] >= lo)
+        if f['lt'] is not None:
+            c.assume(f['lt'] > lo)
+    if hi is not None:
+        if f['ge'] is not None:
+            c.assume(f['ge'] <= hi)
+        if f['gt'] is not None:
+            c.assume(f['gt'] < hi)
     vals = []
     if with_values:
         n = c.choose(3, 'n_values')   # 0, 1 or 2 enumerated values
@@ -55,7 +68,7 @@ def _mk_equiv(name):
                              "those set by customize() (cross-checked in replay)"])
     def ob(c):
         T = getattr(number, name)
-        cls, f = schematic_number(c, T)
+        cls, f = schematic_number(c, T, bounds=(T.Attributes.min_bound, T.Attributes.max_bound))
         is_none = bool(c.choose(2, 'value_is_none'))
         v = None if is_none else c.int('value')
         out = c.run(T.validate_native, cls, v)
